@@ -463,7 +463,17 @@ pub fn gen_c02(rng: &mut Rng, tier: &str, out: &mut Out) {
     let th = thorough(tier);
     let n = if th { 1200 } else { 280 };
     for i in 0..n {
-        let cfg = if i % 10 == 6 { big_class_cfg() } else { Cfg::domain() };
+        let mut cfg = if i % 10 == 6 { big_class_cfg() } else { Cfg::domain() };
+        if i == 11 || (th && i % 40 == 11) {
+            cfg.huge_pct = 30;
+            cfg.max_classes = 3;
+        }
+        if i == 13 || (th && i % 70 == 13) {
+            cfg.many_similar = true;
+            cfg.min_classes = 250;
+            cfg.max_classes = 300;
+            cfg.max_members = 1;
+        }
         let mut text = domain_mapping(rng, &cfg);
         if i % 4 == 3 {
             // token-mutated, filtered back into the representable domain
@@ -890,6 +900,16 @@ pub fn gen_c09(rng: &mut Rng, tier: &str, out: &mut Out) {
         }
         if i % 9 == 5 {
             cfg = big_class_cfg();
+        }
+        if i == 7 || (th && i % 50 == 7) {
+            cfg.huge_pct = 40;
+            cfg.max_classes = 3;
+        }
+        if i == 17 || (th && i % 90 == 17) {
+            cfg.many_similar = true;
+            cfg.min_classes = 250;
+            cfg.max_classes = 300;
+            cfg.max_members = 1;
         }
         let text = domain_mapping(rng, &cfg);
         map_op(out, true, &text);
